@@ -195,7 +195,7 @@ class Scheduler (object):
     with self._lock:
       if self._callLaterTask is None:
         self._callLaterTask = CallLaterTask()
-        self._callLaterTask.start()
+        self._callLaterTask.start(self)
 
     self._callLaterTask.callLater(func, *args, **kw)
 
